@@ -70,7 +70,9 @@ Definition cmd_chmod (args : list bytes) (st : state) : outcome :=
   | _ => Failed st
   end.
 
-(* ---- cmp / cmpenv; update mode (C16) is the branch guarded by [upd] *)
+(* ---- cmp / cmpenv; update mode (C16) is the branch guarded by [upd]: the second file is an archive
+   entry when its CLEANED absolute path is a key of scriptFiles (the file itself is read through the
+   path as written) *)
 Definition cmd_cmp (upd : bool) (envsubst : bool) (neg : bool) (args : list bytes) (st : state) : outcome :=
   match args with
   | [n1; n2] =>
@@ -87,7 +89,7 @@ Definition cmd_cmp (upd : bool) (envsubst : bool) (neg : bool) (args : list byte
               if neg then (if eq then Failed st else Done st)
               else if eq then Done st
               else if upd && negb envsubst then
-                match assoc_get (s_files st) abs2 with
+                match assoc_get (s_files st) (clean abs2) with
                 | Some entry => Done (set_updates st (assoc_set (s_updates st) entry text1))
                 | None => Failed st
                 end
